@@ -296,6 +296,7 @@ func (p *CFListChannelPayload) UnmarshalBinary(uplink bool, data []byte) error {
 		return errors.New("lorawan: length must be a multiple of 3")
 	}
 
+	p.Channels = [5]uint32{}
 	for i := 0; i < len(data)/3; i++ {
 		p.Channels[i] = binary.LittleEndian.Uint32([]byte{
 			data[i*3],
